@@ -70,7 +70,15 @@ def jobs(tier):
     J.append(conc("2,0,0,0" if q else "3,0,0,0", prog0=prog((K_ADD, 3)), prog1=prog((K_LOOKUP, 0), (K_WALKALL, 0)), **lz))
     J.append(conc("2,0,0,0", prog0=prog((K_ADD, 3), (K_DEL, 1)), prog1=prog((K_LOOKUP, 1), (K_LOOKUP, 2)), **lz))
     J.append(conc("1,1,0,0", prog0=prog((K_ADD, 3)), prog1=prog((K_LOOKUP, 0), (K_WALKALL, 0)), settle_end=0, **lz))
+    # overlapping resize requests (the target changes while a resize runs): lazy grow + explicit resize, two explicit resizers; lookups meanwhile
+    J.append(conc("2,0,0,0", prog0=prog((K_ADD, 3)), prog1=prog((K_RESIZE, 8)), prog2=prog((K_LOOKUP, 0), (K_LOOKUP, 2)), **lz))
+    J.append(conc("2,0,0,0", workers=16, hmap=1, init=2, prog0=prog((K_RESIZE, 8)), prog1=prog((K_RESIZE, 1)), prog2=prog((K_LOOKUP, 1), (K_LOOKUP, 0)), **TWO))
     # the table bound to real flavors (memb with sys_membarrier, bp without): same oracles, real grace periods
+    # two adders that both request a lazy grow (both raise the resize target; the loser of the compare-and-swap must notice)
+    J.append(conc("2,0,0,0", flags=1, hmap=4, init=1, ninit=3, init_keys=0x210, prog0=prog((K_ADD, 3)), prog1=prog((K_ADD, 3), (K_LOOKUP, 0))))
+    J.append(conc_real("lfht_qsbr", {}, "1,0,0,0" if q else "2,0,0,0", hmap=0, enum=1, nenum=2, nops=1, **TWO))
+    J.append(conc_real("lfht_qsbr", {}, "1,0,0,0" if q else "2,0,0,0", flags=1, hmap=4, init=1, ninit=3, init_keys=0x210, prog0=prog((K_ADD, 3)),
+                       prog1=prog((K_DEL, 0), (K_LOOKUP, 1))))
     for b, env in REAL:
         deep = (not q) or b == "lfht_memb"
         J.append(conc_real(b, env, "2,0,0,0" if deep else "1,0,0,0", hmap=0, enum=1, nenum=2, nops=1, **TWO))
